@@ -466,6 +466,11 @@ class Pickled(OpcodeSequence):
     ) -> int:
         if not isinstance(self[-1], Stop):
             raise ValueError("Expected the last opcode to be STOP")
+        # A FRAME opcode announces how many bytes follow in its frame. Opcodes inserted into a frame
+        # make that count stale, and an unpickler reading from a stream then mis-reads the argument
+        # that straddles the stale frame end. Framing is optional: the rewritten pickle goes without.
+        for index in reversed([k for k, opcode in enumerate(self) if isinstance(opcode, Frame)]):
+            del self[index]
         # we need to add the call to GLOBAL before the preexisting code, because the following code
         # can sometimes mess up module lookup (somehow? I, Evan, don't fully understand why yet).
         # So we set up the "import" of `__builtin__.eval` first, then set up the stack for a call
